@@ -362,6 +362,18 @@ REGRESSION = [
 ]
 
 
+RAW_UNITS = [
+    # (source, {object: (bytes, exported)})
+    ('int a[]; int a[3];\nextern long b[]; long b[5];\nstatic char c[]; static char c[7];\nint d[]; int d[2] = { 1, 2 };\nint use(void) { return a[0] + b[0] + c[0] + d[0]; }\n',
+     {'a': (12, True), 'b': (40, True), 'c': (7, False), 'd': (8, True)}),
+    ('int name(void) { const char *p = __func__, *q = __func__; static int n; static int m = 2; return p[0] + q[1] + sizeof __func__ + n + m; }\n'
+     'int other(void) { static int n; return __func__[0] + __func__[1] + n; }\n', {}),
+    ('extern int x, y; int *p = &x; int x = 1; int *q = &y; int y; static int s; int t; int t; int t = 4;\nint f(void) { return *p + *q + s + t; }\n',
+     {'x': (4, True), 'y': (4, True), 's': (4, False), 't': (4, True), 'p': (8, True)}),
+    # known finding: __func__ used only as an address constant of a static initialiser is referenced but never defined
+    ('int f(void) { static const char *p = __func__; return p[0]; }\n', {}, 'func-name-address-constant-undefined'),
+]
+
 # ------------------------------------------------------------------------------------------ gcc as second opinion
 def readelf_syms(obj):
     rc, out, err = sh(['readelf', '-sW', obj], timeout=60)
@@ -827,7 +839,39 @@ def run(ctx):
         ctx.ob('K-CLI:%d histories in %d units: IL names, ids, export/thread keywords and references equal the extracted Linkage model'
                % (chk.stats['histories'], chk.stats['units']), not any(b[0] == 'correspondence' for b in ctx.brokens))
         ctx.ob('S-CLI:symbol tables equal LinkSpec on every specified history (known deviations keyed)',
-               not [v for v in ctx.violations if v['key'] not in (KEY_D19, KEY_TT)])
+               not [v for v in ctx.violations if v['key'] not in (KEY_D19, KEY_TT, 'func-name-address-constant-undefined')])
+        # hand-written units with types the history language does not have (arrays completed by a later declaration,
+        # implicit block-scope statics): every symbol is defined once, with the size of its final type
+        for ru in RAW_UNITS:
+            src, want = ru[0], ru[1]
+            rkey = ru[2] if len(ru) > 2 else 'raw-unit'
+            rc, out, err = ctx.qbe(src)
+            chk.stats['raw_units'] = chk.stats.get('raw_units', 0) + 1
+            defs = re.findall(r'^(?:thread )?(export )?data \$(' + NAME_RE + r') = (?:align \d+ )?\{ (.*?) ?\}$', out, re.M)
+            funs = re.findall(r'^function (?:\w+ |:\S+ )?\$(' + NAME_RE + r')\(', out, re.M)
+            names = [d[1] for d in defs] + funs
+            dup = sorted({n for n in names if names.count(n) > 1})
+            refs = set(re.findall(r'\$(' + NAME_RE + r')', out))
+            undef_local = sorted(r for r in refs if r.startswith('.L') and r not in names)
+            problems = []
+            if rc != 0:
+                problems.append('rejected: ' + err[:160])
+            if dup:
+                problems.append('defined more than once: %r' % dup)
+            if undef_local:
+                problems.append('local symbols referenced but not defined: %r' % undef_local)
+            for nm, (size, exported) in want.items():
+                got = [d for d in defs if d[1] == nm]
+                if len(got) != 1:
+                    problems.append('%s: %d definitions' % (nm, len(got)))
+                    continue
+                body = got[0][2]
+                sz = sum({'b': 1, 'h': 2, 'w': 4, 'l': 8, 's': 4, 'd': 8}[t] * max(1, len(re.findall(r'-?[\w$.+"]+', rest))) if t != 'z' else int(rest.strip().rstrip(','))
+                         for t, rest in re.findall(r'([bhwlsdz]) ([^,]*),?', body))
+                if sz != size or bool(got[0][0]) != exported:
+                    problems.append('%s: %d bytes%s, expected %d bytes%s' % (nm, sz, ' exported' if got[0][0] else '', size, ' exported' if exported else ''))
+            if problems:
+                ctx.violation('hand-written linkage unit: ' + '; '.join(problems), src, 'c', key=rkey)
         # the specification against gcc
         gh = cases['exhaustive<=2'] + cases['regression'] + (cases['block-structure'] if thorough else ctx.rng.sample(cases['block-structure'], 600)) \
             + ctx.rng.sample(list(cases.values())[1], 4000 if thorough else 700) \
